@@ -1,4 +1,5 @@
 // CHILD-OF: src/contract.rs
+// ROBUST: names no storage key/value type of the gas service; state is built by the constructor and observed through public queries, the token ghost and the event log
 // ENCODES: AxelarGasService::{__constructor, pay_gas, add_gas, collect_fees, refund, gas_collector}, event::{gas_paid, gas_added, refunded, fee_collected}
 // STUBS: soroban_sdk::token::xc_TokenClient_{transfer, balance, allowance, approve, transfer_from, burn} -> TokenSpec (standard token: sender must authorise unless it is the calling contract, amount >= 0, no overdraft, no overflow; ghost balance of the service)
 // C14 (balance equation, events), C06 (collector-only outflows), C07 (spender authorises payments).
@@ -141,7 +142,8 @@ fn setup() -> (Env, Address) {
     let env = Env::default();
     any::auths();
     let collector = any::address(4);
-    model::with_contract(&svc(), || env.storage().instance().set(&DataKey::GasCollector, &collector));
+    // state is built by the constructor (no storage key is named: a changed storage layout is judged on behaviour)
+    model::with_contract(&svc(), || AxelarGasService::__constructor(env.clone(), any::address(4), collector.clone()));
     (env, collector)
 }
 
@@ -278,7 +280,7 @@ fn c14_refund() {
     kani::cover!(token.amount == b0 && b0 > 0, "VERIF:reach:refunded the exact balance");
 }
 
-// HARNESS props=C14,C06 tier=quick profile=gas shape="constructor and gas_collector query"
+// HARNESS props=C14,C06 tier=quick profile=gas mode=strict shape="constructor and gas_collector / owner queries; nothing may trap"
 #[kani::proof]
 fn c14_constructor() {
     let env = Env::default();
